@@ -26,7 +26,7 @@ Definition cok (x : ctx) : Prop :=
   (pre_close (k_loc x) = true -> k_ncl x = 0%nat) /\
   match mode_of x with
   | MFreed =>
-    k_nfree x = 1%nat /\ k_work x = 0%nat /\ (k_loc x = LNone \/ k_loc x = LAccClose /\ k_fd x = true) /\
+    k_nfree x = 1%nat /\ k_work x = 0%nat /\ k_wfin x = 0%nat /\ (k_loc x = LNone \/ k_loc x = LAccClose /\ k_fd x = true) /\
     (k_ref x = 0 \/ k_pub x = false) /\ (k_nrel x <= 1)%nat
   | MWorkFin =>
     k_nfree x = 0%nat /\ k_loc x = LNone /\ k_ref x = 0 /\ k_work x = 0%nat /\ (k_wfin x <= 3)%nat /\
@@ -65,7 +65,13 @@ Ltac local_tac :=
          end;
   inversion E; subst; clear E;
   repeat match goal with
+         | H0 : Nat.eqb _ _ = true |- _ => apply Nat.eqb_eq in H0; subst
+         end;
+  repeat match goal with
          | H0 : (if ?b then _ else _) = (_, _) |- _ => destruct b eqn:?; inversion H0; subst; clear H0
+         end;
+  repeat match goal with
+         | |- context [if ?b then _ else _] => destruct b eqn:?; simpl
          end;
   finish.
 
